@@ -1,9 +1,34 @@
-(* C09 — statements about the file-store listing model; proofs in GCS/FileListProofs.v (to come) *)
-From Coq Require Import List NArith ZArith Bool.
+(* C09 — GCS: the file store answers like the memory store, except for the listing walk order.
+   Only statements here; proofs are in GCS/FileListProofs.v. *)
+From Coq Require Import List NArith ZArith Bool Sorting Permutation.
 Import ListNotations.
 From Emu.Common Require Import Bytes Str.
-From Emu.GCS Require Import Model FileList.
+From Emu.GCS Require Import Model FileList ListingProofs FileListProofs.
+Local Open Scope Z_scope.
+
 (* every request other than a listing is served by the same handler model for both stores *)
 Theorem C09_same_handlers : forall s r, (forall b p d c m, r <> RList b p d c m) -> handle_fs s r = handle s r.
 Proof. intros s r H. destruct r; try reflexivity. exfalso. eapply H. reflexivity. Qed.
 Print Assumptions C09_same_handlers.
+
+(* the file walk visits the names in the order of their path-segment lists *)
+Theorem C09_fs_sort_perm : forall names, Permutation names (fs_sort names).
+Proof. exact fs_sort_perm. Qed.
+Print Assumptions C09_fs_sort_perm.
+
+Theorem C09_fs_sort_sorted : forall names, StronglySorted name_le (fs_sort names).
+Proof. exact fs_sort_sorted. Qed.
+Print Assumptions C09_fs_sort_sorted.
+
+(* finding GCS-2: bucket {"foo-bar/x", "foo/y"}, prefix "foo-": memory store lists "foo-bar/x",
+   the file store lists nothing *)
+Theorem C09_stores_listing_refuted :
+  list_proj (snd (handle c09_state c09_list)) = ([c09_foo_bar_x], [], None)
+  /\ list_proj (snd (handle_fs c09_state c09_list)) = ([], [], None)
+  /\ handle_fs c09_state c09_list <> handle c09_state c09_list.
+Proof. exact stores_listing_refuted. Qed.
+Print Assumptions C09_stores_listing_refuted.
+
+Example C09_sort_nonvacuous :
+  fs_sort [c09_foo_bar_x; c09_foo_y] = [c09_foo_y; c09_foo_bar_x].
+Proof. vm_compute. reflexivity. Qed.
